@@ -40,12 +40,15 @@ class Inst:
         stub = Stub()
         err = "len"
         c = self.cls
+        self.own = None  # (message, predicate on len) of the container's own constraint
         if c in ("ListMethod", "ListCheckOnlyMethod", "SetMethod"):
-            self.method = getattr(M, c)((), stub)
+            self.method = getattr(M, c)((M.MaxItemsConstraint("too many", 1),), stub)
+            self.own = ("too many", lambda n: n > 1)
         elif c == "TupleMethod":
             self.method = M.TupleMethod((), err, err, tuple(Stub() for _ in range(self.n)))
         elif c in ("MappingMethod", "MappingCheckOnly"):
-            self.method = getattr(M, c)((), stub, stub)
+            self.method = getattr(M, c)((M.MaxPropertiesConstraint("too many", 1),), stub, stub)
+            self.own = ("too many", lambda n: n > 1)
         else:
             ns = {}
             if c == "ObjectMethod":
@@ -101,6 +104,8 @@ class Inst:
         except self.VE as e:
             errors = e.errors
         exp = []
+        if self.own and self.own[1](len(d)):
+            exp.append({"loc": [], "err": self.own[0]})  # own messages first, then children
         for k, v in zip(keys, vals):
             if v < 0:
                 exp.append({"loc": [k], "err": "child"})
